@@ -171,6 +171,11 @@ theorem C17_tie_shapeAddCollectedFees : shapeAddCollectedFees =
 theorem C17_tie_stakersCommunityArg : stakersCommunityArg =
   "remaining" := rfl
 
+/-- the only exit of AllocateTokensToStakers before the remainder is booked to the community pool is
+the error of GetOptedInAVSForOperator; in particular an EMPTY collected staker list does not return
+early (model: `allocStakers … [] R = some (rw, community + R)`, C17_empty_staker_list_remainder_to_community) -/
+theorem C17_tie_stakersReturnsBeforeBooking : stakersReturnsBeforeBooking = ["err != nil"] := rfl
+
 /-- position of a name in a list -/
 def idxOf (x : String) : List String → Nat
   | [] => 0
